@@ -296,8 +296,8 @@ static bool do_op(shadow *sh, int op, mismatch *mm, bool counting)
             snprintf(mm->why, sizeof mm->why, "after %s the parser still holds cb_context pointing %zu bytes below the caller's frame, into a dead stack frame (cb %s)", opname[op],
                      (size_t) (top - ctx), p->cb == NULL ? "NULL" : (p->cb == count_cb ? "= the caller's" : "= a library-internal function"));
             snprintf(mm->sig, sizeof mm->sig, "dangling-stack-context:%s", opname[op]);
-            mm->prop = "C01";
-            if (P_C01) return false;
+            mm->prop = P_C12 ? "C12" : "C01";      /* also C12: whatever the parser is used for next will run on that stale context */
+            if (P_C01 || P_C12) return false;
             mm->prop = NULL;
         }
         if (e1 == BINSON_ERROR_NONE && (p->state != L.st || (p->current_state && (p->current_state < L.st || p->current_state >= L.st + L.max_depth)))) {
@@ -683,7 +683,8 @@ static void tower_run(const uint8_t *b, size_t n, int kind, int md, const char *
     cur_tower = 1;
     for (int fi = 0; fi < 2; fi++) {
         FILL = fi ? 0xAA : 0;
-        for (int script = 0; script < 3; script++) {
+        int refv = vf_ref_decode(IN, INLEN, KIND0, MD, NULL);
+        for (int script = 0; script < 4; script++) {
             /* vf_snap is limited to 16 levels: towers run on the live object only */
             vf_live_alloc(&L, IN, INLEN, MD, FILL);
             cur_in_bfs = 0; cur_nhist = 0;
@@ -706,9 +707,51 @@ static void tower_run(const uint8_t *b, size_t n, int kind, int md, const char *
                     cur_op = OP_INTO_OBJ; binson_parser_go_into_object(L.p);
                     cur_op = OP_INTO_ARR; binson_parser_go_into_array(L.p);
                     cur_op = OP_NEXT; bool r = binson_parser_next(L.p);
-                    if (script == 2) { cur_op = OP_NEXT; binson_parser_next(L.p); }
+                    if (script == 2) { cur_op = OP_NEXT; binson_parser_next(L.p); }     /* scripts 1 and 3: enter everything; 2: enter then skip */
                     vf_count(CT_TRANS, 4);
                     if (!r && round > 280) break;
+                }
+                if (script == 1 && (refv == VR_MAXOBJ || refv == VR_MAXARR)) {
+                    /* nesting beyond the limit met while entering level by level: the matching error must have been raised and must still be set */
+                    binson_err want = refv == VR_MAXOBJ ? BINSON_ERROR_MAX_DEPTH_OBJECT : BINSON_ERROR_MAX_DEPTH_ARRAY;
+                    if (L.p->error_flags != want) {
+                        if (P_C09) {
+                            vf_str bb = { 0 };
+                            describe_case(&bb, NULL, 0, -1);
+                            vf_str_printf(&bb, "script: enter every level (go_into_object, go_into_array, next; results ignored)\nmismatch: the document nests deeper than the limit but after entering level by level error_flags=%s, expected %s: the failure is not detectable by one check at the end\n",
+                                          vf_err_name(L.p->error_flags), vf_err_name(want));
+                            vf_violation("api:tower:depth-error-not-latched", bb.s);
+                            vf_str_free(&bb);
+                        } else vf_count(CT_IGNORED_OTHER_PROP, 1);
+                    }
+                }
+                if (script == 3) {
+                    /* C12 at full depth: reset from the deepest position must give the image of a fresh parser (all max_depth entries) */
+                    cur_op = OP_RESET;
+                    bool rr = binson_parser_reset(L.p);
+                    vf_live F;
+                    vf_live_alloc(&F, IN, INLEN, MD, 0);
+                    bool fr = KIND0 == VK_OBJ ? binson_parser_init_object(F.p, vf_live_bufptr(&L), L.len) : binson_parser_init_array(F.p, vf_live_bufptr(&L), L.len);
+                    vf_count(CT_REINIT_CHECKS, 1);
+                    const char *bad = NULL;
+                    if (rr != fr) bad = "reset returns a different result than init on a fresh parser";
+                    else if (rr && (L.p->depth != F.p->depth || L.p->buffer_used != F.p->buffer_used || L.p->error_flags != F.p->error_flags || L.p->type != F.p->type ||
+                                    L.p->current_state != L.p->state)) bad = "a scalar field differs from a fresh parser's";
+                    else if (rr && memcmp(L.st, F.st, sizeof(binson_state) * (size_t) MD)) bad = "the state array differs from a fresh parser's";
+                    else if (rr) {
+                        bool v1 = binson_parser_verify(L.p), v2 = binson_parser_verify(F.p);
+                        if (v1 != v2 || L.p->error_flags != F.p->error_flags) bad = "verify after the reset differs from verify on a fresh parser";
+                    }
+                    vf_live_free(&F);
+                    if (bad) {
+                        if (P_C12) {
+                            vf_str bb = { 0 };
+                            describe_case(&bb, NULL, 0, -1);
+                            vf_str_printf(&bb, "script: enter every level, then reset\nmismatch: %s\n", bad);
+                            vf_violation("api:tower:reset-at-depth", bb.s);
+                            vf_str_free(&bb);
+                        } else vf_count(CT_IGNORED_OTHER_PROP, 1);
+                    }
                 }
                 for (int round = 0; round < 300; round++) {
                     vf_progress++;
@@ -829,10 +872,10 @@ static void worker(int w, int W, uint64_t start)
     /* 3c. payloads that need a 2-byte and a 4-byte length prefix (string, bytes, name), in the smallest shapes */
     {
         static vf_doc bd;
-        static uint8_t big[40000];
+        static uint8_t big[66000];
         memset(big, 'h', sizeof big);
-        static const size_t lens[] = { 200, 32768, 40000 };
-        for (int li = 0; li < 3; li++)
+        static const size_t lens[] = { 300, 32768, 40000, 66000 };    /* 300 > 255, 66000 > 65535: 8- and 16-bit loop counters wrap */
+        for (int li = 0; li < 4; li++)
             for (int shape = 0; shape < 5; shape++) {
                 if (!take()) continue;
                 vf_b_reset(&bd);
